@@ -173,15 +173,6 @@ def elems_fn(sort):
     concatenations, units and empties structurally, which is all the
     obligations need.  Weaker than the recursive definition, hence sound."""
     f = Z.func('elems<%s>' % sort, Z.SeqSort(sort), Z.SetSort(sort))
-    key = 'elems-axioms<%s>' % sort
-    if key not in Z.AXIOMS._names:
-        a = z3.Const('el!a<%s>' % sort, Z.SeqSort(sort))
-        b = z3.Const('el!b<%s>' % sort, Z.SeqSort(sort))
-        x = z3.Const('el!x<%s>' % sort, sort)
-        Z.AXIOMS.add(key, z3.And(
-            z3.ForAll([a, b], f(z3.Concat(a, b)) == z3.SetUnion(f(a), f(b)), patterns=[f(z3.Concat(a, b))]),
-            z3.ForAll([x], f(z3.Unit(x)) == z3.SetAdd(Z.empty_set(sort), x), patterns=[f(z3.Unit(x))]),
-            f(Z.empty_seq(sort)) == Z.empty_set(sort)))
     return f
 
 
@@ -905,6 +896,8 @@ def setitem(I, ctx, fr, base, idx, val, node):
         oldx = Z.fresh('set_old', h.et.zsort)
         ctx.assume(h.z == z3.Concat(pre, z3.Unit(oldx), post))
         ctx.assume(z3.Length(pre) == pos)
+        # elements of the old value, stated as a ground fact (elems is uninterpreted)
+        ctx.assume(elems_fn(h.et.zsort)(h.z) == elems_of(z3.Concat(pre, z3.Unit(oldx), post), h.et.zsort))
         h.z = z3.Concat(pre, z3.Unit(h.et.to_z(val, ctx)), post)
         return
     if isinstance(base, VObj):
